@@ -217,6 +217,7 @@ static void offer_workload(int wl, int64_t t0)
 /* ---------------------------------------------------------------- violations */
 static void viol(const char *what, const char *fmt, ...)
 {
+	if (hc_san_as) return;
 	char detail[360], sig[120];
 	va_list ap; va_start(ap, fmt); vsnprintf(detail, sizeof detail, fmt, ap); va_end(ap);
 	snprintf(sig, sizeof sig, "%s:%s", PROP, what);
@@ -224,7 +225,7 @@ static void viol(const char *what, const char *fmt, ...)
 }
 
 static void core_viol(const char *sig, const char *detail) { if (!strcmp(PROP, "C01")) viol(sig, "%s", detail); }
-static void on_san(const char *sig) { (void)sig; xp_count(K_SANNOTES, 1); }
+static void on_san(const char *sig) { if (hc_san_report(sig, W.cur, "the netsim exploration (real client and server)")) return; xp_count(K_SANNOTES, 1); }
 
 /* ---------------------------------------------------------------- C10 / C14 monitor: queries received vs answers emitted */
 #define MAXPEND 512
@@ -747,7 +748,7 @@ int main(int argc, char **argv)
 		cells_pairwise(0, 0); cells_pairwise(1, 2); PHASE(1);
 		if (thorough) { cells_full(0, 0); PHASE(1); cells_pairwise(1, 0); PHASE(2); }
 	}
-	xp_init(PROP, a.tier, 1 << 22, a.budget_s);
+	xp_init(hc_san_as ? hc_san_as : PROP, a.tier, 1 << 22, a.budget_s);
 	if (a.replay) {
 		int j = xp_load_replay(a.replay);
 		for (int p = 0; p < nph; p++) if (j >= PH[p].first && j < PH[p].first + PH[p].count) BUDGET = PH[p].budget;
